@@ -198,11 +198,35 @@ def gen_batch(rng, s):
 
 async def run_case(ctx, rng, index):
     st = ctx.stats
-    so = smodel.GenOpts(n_objects=(2, 4), fields=(2, 4), p_gate=0.15, p_mutation=0.3)
+    so = smodel.GenOpts(n_objects=(2, 4), fields=(2, 4), p_gate=0.15, p_mutation=0.3, n_inputs=(1, 2), p_args=0.5)
     s = smodel.gen_schema(rng, so)
+    if rng.random() < 0.35:
+        # context-dependent input coercion on String-typed input fields and arguments (defaults included)
+        s.directives["vtctx"] = smodel.DirectiveDef("vtctx", ["INPUT_FIELD_DEFINITION", "ARGUMENT_DEFINITION"])
+        for t in s.types.values():
+            if t.kind == "INPUT_OBJECT":
+                for a in t.fields:
+                    if smodel.named_of(a.type) == "String" and rng.random() < 0.7:
+                        a.directives.append(("vtctx", []))
+                # a defaulted, context-dependent field that requests usually omit
+                t.fields.append(smodel.Arg("ctxField_", smodel.N("String"), ("string", "d"), directives=[("vtctx", [])]))
+            elif t.kind == "OBJECT":
+                for f in t.fields.values():
+                    for a in f.args:
+                        if smodel.named_of(a.type) == "String" and rng.random() < 0.5:
+                            a.directives.append(("vtctx", []))
     sdl = smodel.print_sdl(s)
     cache = RecordingCache()
-    b = harness.Bundle(s, sdl=sdl, query_cache_decorator=rng.choice([cache, cache, "default"]))
+    coercer_opts = {}
+    if rng.random() < 0.35:
+        # an error coercer written like the documentation's example: it writes into the error it was handed
+        async def annotating_error_coercer(exception, error):
+            if isinstance(error.get("extensions"), dict):
+                error["extensions"]["seen"] = error["extensions"].get("seen", 0) + 1
+            error["annotated"] = error.get("annotated", 0) + 1
+            return error
+        coercer_opts["error_coercer"] = annotating_error_coercer
+    b = harness.Bundle(s, sdl=sdl, query_cache_decorator=rng.choice([cache, cache, "default"]), **coercer_opts)
     if b.opts["query_cache_decorator"] == "default":
         del b.opts["query_cache_decorator"]
     await b.build()
@@ -253,7 +277,7 @@ async def run_case(ctx, rng, index):
                     ctx.violation("task-alive-after-execute", repr(stray[:2]), c2)
             # afterwards: same engine again, and a fresh engine
             if fresh is None:
-                fresh = harness.Bundle(s, sdl=sdl, query_cache_decorator=None)
+                fresh = harness.Bundle(s, sdl=sdl, query_cache_decorator=None, **coercer_opts)
                 await fresh.build()
             # the fresh engine sees the requests in the OPPOSITE order (a history-dependent defect shows as a difference);
             # one request per batch is also answered by a brand-new engine built for it alone
@@ -263,7 +287,7 @@ async def run_case(ctx, rng, index):
                 for i in order:
                     fresh_resp[i] = norm(await items[i].coro(fresh.engine, s, None, None))
                 j = rng.randrange(len(items))
-                single = harness.Bundle(s, sdl=sdl, query_cache_decorator=None)
+                single = harness.Bundle(s, sdl=sdl, query_cache_decorator=None, **coercer_opts)
                 await single.build()
                 try:
                     one = norm(await items[j].coro(single.engine, s, None, None))
